@@ -389,9 +389,9 @@ func c18SequenceJob(tier string) *SeqJob {
 	j.Run = func(ctx *SeqCtx) {
 		for _, r := range []float32{0, 0.1} {
 			rate = r
+			ctx.OpsPrefix = []string{fmt.Sprint(r)}
 			bfs(ctx, alphabet, depth, exec)
 			if ctx.viol != nil {
-				ctx.viol.Ops = append([]string{fmt.Sprint(r)}, ctx.viol.Ops...)
 				return
 			}
 		}
